@@ -47,6 +47,19 @@
 (*           "total"    mean taken over the optical depth already in the    *)
 (*                      buffer plus the source's own, then ADDED: whatever  *)
 (*                      was accumulated before is counted twice             *)
+(*                                                                         *)
+(* Round 5 -- the MAGNITUDE of the abundance as a dimension.  "A            *)
+(* component's weighted opacity is proportional to its abundance" for all   *)
+(* compositions: the mixing ratio of a component in a layer is 10^-e with e *)
+(* on the lattice AbExps (the whole documented domain, 1e-20 .. 0.1; AbOrd  *)
+(* is the ordinary abundance every earlier fixture used), and its           *)
+(* cross-section is 10^e times larger, so that the weighted opacity -- and  *)
+(* the optical depth -- is of order one at EVERY magnitude.  Magnitudes are *)
+(* kept as <<mantissa, decade>> (32-bit integers cannot hold 1e20).         *)
+(*   AbFloor = 99   documented: weighted = cross-section x mixing ratio     *)
+(*           = n    a mixing ratio below 10^-n is taken as "absent" (a      *)
+(*                  threshold where a test for zero was meant): refuted on  *)
+(*                  ProportionalToAbundance and LayerByLayer                *)
 (***************************************************************************)
 EXTENDS Integers, Sequences, FiniteSets, TLC, Rat, Json
 
@@ -57,6 +70,9 @@ CONSTANTS NL,        \* number of layers
           Modes,     \* subset of {"xsec", "ktables"}
           KCfgs,     \* k-configurations (ktables mode)
           Guard, KAvg,
+          AbExps,    \* lattice of abundance exponents: mixing ratio 10^-e
+          AbOrd,     \* the ordinary exponent (every component but at most one has it in every layer)
+          AbFloor,   \* 99: none (documented) | n: the implementation ignores mixing ratios below 10^-n
           OnlyBasis, \* TRUE: only the input classes that are exported (at most two components deviate from
                      \* "opacity in every layer"); FALSE: every input
           Export
@@ -128,15 +144,34 @@ Basis(i) == Cardinality(Deviating(i.a)) <= 2
 \* cross-section mode has no k-configuration
 Canon(i) == (i.mode = "xsec") = (i.kc = NoK)
 
-Eval(i) == [all  |-> [j \in Layers |-> ModelT(i.a, Ident, NS, j, i.mode, i.kc)],
-            src  |-> [s \in Srcs |-> [j \in Layers |-> AddPart(ROne, i.a, s, Comps(s), j, i.mode, i.kc)]],
-            comp |-> [s \in Srcs |-> [c \in Comps(s) |-> [j \in Layers |-> AddPart(ROne, i.a, s, {c}, j, i.mode, i.kc)]]]]
+\* ---- magnitudes <<mantissa, decade>> = mantissa x 10^decade
+DMul(x, y) == <<x[1] * y[1], x[2] + y[2]>>
+MixOf(i, x, k) == <<1, 0 - i.e[x][k]>>                  \* the mixing ratio 10^-e
+XSecOf(i, x, k) == <<i.a[x][k], i.e[x][k]>>             \* the cross-section: large enough for a weighted opacity a
+DocWeighted(i, x, k) == DMul(XSecOf(i, x, k), MixOf(i, x, k))
+\* the implementation's weighted opacity of component x in layer k
+Weighted(i, x, k) == IF AbFloor < 99 /\ i.e[x][k] > AbFloor THEN <<0, 0>> ELSE DocWeighted(i, x, k)
+\* ... which is what its kernels integrate (decade 0 by construction: FitsInv)
+EffA(i) == [x \in CompIdx |-> [k \in Layers |-> Weighted(i, x, k)[1]]]
+
+Eval(i) == LET ea == EffA(i) IN
+           [all  |-> [j \in Layers |-> ModelT(ea, Ident, NS, j, i.mode, i.kc)],
+            src  |-> [s \in Srcs |-> [j \in Layers |-> AddPart(ROne, ea, s, Comps(s), j, i.mode, i.kc)]],
+            comp |-> [s \in Srcs |-> [c \in Comps(s) |-> [j \in Layers |-> AddPart(ROne, ea, s, {c}, j, i.mode, i.kc)]]],
+            sig  |-> [s \in Srcs |-> [c \in Comps(s) |-> [k \in Layers |-> Weighted(i, <<s, c>>, k)]]]]
 
 Init == /\ phase = "in" /\ out = <<>>
         /\ \E a \in [CompIdx -> [Layers -> AVals]], m \in Modes, kc \in KCfgs \cup {NoK} :
                /\ Canon([a |-> a, mode |-> m, kc |-> kc])
                /\ (OnlyBasis => Basis([a |-> a]))
-               /\ inp = [a |-> a, mode |-> m, kc |-> kc]
+               \* at most ONE component leaves the ordinary abundance (any exponent pattern over the layers); it is then
+               \* also the only one that may lack opacity somewhere
+               /\ \E x0 \in CompIdx, pe \in [Layers -> AbExps] :
+                      /\ ((\E k \in Layers : pe[k] # AbOrd) => Deviating(a) \subseteq {x0})
+                      \* exported classes: one magnitude besides the ordinary one (uniform, or in some layers only)
+                      /\ (OnlyBasis => \E v \in AbExps : \A k \in Layers : pe[k] \in {AbOrd, v})
+                      /\ inp = [a |-> a, mode |-> m, kc |-> kc,
+                                e |-> [x \in CompIdx |-> IF x = x0 THEN pe ELSE [k \in Layers |-> AbOrd]]]
 Evaluate == phase = "in" /\ out' = Eval(inp) /\ phase' = "done" /\ UNCHANGED inp
 Next == Evaluate
 Spec == Init /\ [][Next]_vars
@@ -156,9 +191,9 @@ ProdComp(o, s, j, c) == IF c = 0 THEN ROne ELSE RMul(o.comp[s][c][j], ProdComp(o
 \* the transmittance of the model equals the product of the transmittances of each source alone, in either mode
 ProductOverSources == Done => \A j \in Layers :
                           LET pr == ProdSrc(out, j, NS)
-                          IN  \A p \in AllPerms : ModelT(inp.a, p, NS, j, inp.mode, inp.kc) = pr
+                          IN  \A p \in AllPerms : ModelT(EffA(inp), p, NS, j, inp.mode, inp.kc) = pr
 \* ... so it does not depend on the order of the contribution list (out.all is the list 1, 2, .., NS)
-OrderFree == Done => \A p \in AllPerms : \A j \in Layers : ModelT(inp.a, p, NS, j, inp.mode, inp.kc) = out.all[j]
+OrderFree == Done => \A p \in AllPerms : \A j \in Layers : ModelT(EffA(inp), p, NS, j, inp.mode, inp.kc) = out.all[j]
 \* each source is the product over its components.  (Correlated-k: the quadrature points of the molecules of one
 \* source are taken as perfectly correlated, so the statement holds there for degenerate tables only.)
 ProductOverComponents == Done =>
@@ -170,11 +205,19 @@ ZeroNeutral == Done =>
         (\A k \in j..NL : inp.a[<<s, c>>][k] = 0) =>
             /\ out.comp[s][c][j] = ROne
             /\ out.src[s][j] = DocTrans(inp.a, s, Comps(s) \ {c}, j, inp.mode, inp.kc)
-FitsInv == Done => \A j \in Layers : Fits(out.all[j])
+FitsInv == Done => /\ \A j \in Layers : Fits(out.all[j])
+                   /\ \A s \in Srcs : \A c \in Comps(s) : \A k \in Layers : out.sig[s][c][k][2] = 0
+\* each component's weighted opacity is its cross-section times its mixing ratio, layer by layer, at EVERY magnitude of
+\* the abundance: the quotient weighted / mixing ratio is the cross-section, i.e. the weighted opacity is proportional
+\* to the abundance over the whole domain (and a component at exactly zero opacity has exactly none)
+ProportionalToAbundance == Done =>
+    \A s \in Srcs : \A c \in Comps(s) : \A k \in Layers :
+        /\ out.sig[s][c][k] = DocWeighted(inp, <<s, c>>, k)
+        /\ DMul(out.sig[s][c][k], <<1, inp.e[<<s, c>>][k]>>) = <<inp.a[<<s, c>>][k], inp.e[<<s, c>>][k]>>
 
 \* ---------------------------------------------------------------- export
 \* input classes for the bindings: at most two components deviate from "opacity in every layer"
 Nested(a) == [s \in Srcs |-> [c \in Comps(s) |-> a[<<s, c>>]]]
 Emit == (Export /\ Done /\ Basis(inp)) =>
-            PrintT(<<"VEC", ToJson([a |-> Nested(inp.a), mode |-> inp.mode, kc |-> inp.kc, seg2 |-> Seg2, out |-> out])>>)
+            PrintT(<<"VEC", ToJson([a |-> Nested(inp.a), e |-> Nested(inp.e), mode |-> inp.mode, kc |-> inp.kc, seg2 |-> Seg2, out |-> out])>>)
 =============================================================================
